@@ -104,6 +104,43 @@ def run_env(label: str, cfg: Dict[str, Any], steps: int, episodes: int, rng: ran
     return traces
 
 
+def run_no_idle_entry(seed: int, rec: Applied, chk: common.Check, steps: int):
+    """Action maps WITHOUT an always-permitted entry (no do-nothing; entry 0 is a power action of a host with timed
+    transitions): while the host is shutting down or booting every entry is refused at once - the mask must say so for
+    every entry, entry 0 included."""
+    from primaite.session.environment import PrimaiteGymEnv
+
+    traces = []
+    rng = random.Random(seed)
+    for order in (("node-startup", "node-shutdown", "node-reset"), ("node-shutdown", "node-startup"), ("node-reset", "node-startup")):
+        cfg = scenarios.p2p(dur=2)
+        amap = {i: {"action": a, "options": {"node_name": "a"}} for i, a in enumerate(order)}
+        cfg["agents"] = [scenarios.proxy_agent(amap, masking=True)]
+        env = PrimaiteGymEnv(env_config=cfg)
+        env.reset(seed=seed)
+        label = "no-idle-entry:" + "/".join(order)
+        rec.on = True
+        rec.events, rec.meta = [], []
+        all_entries(env, rec)
+        acts, all_denied = [], 0
+        for s_ in range(steps):
+            a = rng.randrange(len(order))
+            acts.append(a)
+            mark = len(rec.events)
+            env.step(a)
+            all_entries(env, rec)
+            if env.game.simulation.network.get_node_by_hostname("a").operating_state.name in ("BOOTING", "SHUTTING_DOWN"):
+                all_denied += 1
+            traces.append({"cfg": {"dig": 0}, "ev": rec.events[mark:], "meta": {"scenario": label, "episode": 0, "step": s_, "requests": rec.meta[mark:]},
+                           "stimulus": {"scenario": label, "actions": list(acts)}})
+            chk.add_case({"s": label, "t": s_, "m": [e["mask"] for e in rec.events[mark:]]}, nontrivial=True)
+        rec.on = False
+        env.close()
+        if all_denied == 0:
+            raise tlc.TLCError(f"vacuous: {label} never reached a state in which every entry is refused")
+    return traces
+
+
 def run_tour(facet: str, seed: int, rec: Applied, chk: common.Check, visits: int):
     """Transition tour of spec/Lifecycle.tla through a masking environment: the mask of EVERY action-map entry is
     compared with the harness' walk at the first `visits` visits of every abstract (power x component) state, and every
@@ -218,6 +255,7 @@ def main(tier: str, seed: int) -> int:
         traces += run_env("uc7+masking", uc7, 80, 1, rng, rec, chk)
         wl = scenarios.test_asset("wireless_wan_network_config.yaml")
         traces += run_env("wireless+all_actions", generated_cfg(wl, rng, 3), 60, 1, rng, rec, chk)
+    traces += run_no_idle_entry(seed, rec, chk, 24 if tier == "quick" else 120)
     for facet in ("svc", "app", "fs"):
         traces += run_tour(facet, seed, rec, chk, visits=1 if tier == "quick" else 3)
     res = tlc.validate("RequestsTrace", traces, chunk=60)
